@@ -70,7 +70,10 @@ StepDerive(r) ==
   /\ cache' = [cache EXCEPT ![n+1] = {}] /\ memo' = [memo EXCEPT ![n+1] = NoMemo]
   /\ last' = << >>
   /\ UNCHANGED << bufs, defaults, hist >>
-  /\ LET bad == Cl("derivation-leaves-source-and-others-unchanged", r.others_ok) \o Common(r)
+  \* a derivation that raises (e.g. masking a dataset that no longer holds its unmasked parent) creates a dead handle;
+  \* purity is about values and inputs, so only those are judged here
+  /\ LET bad == Cl("derivation-leaves-source-and-others-unchanged", r.others_ok)
+                \o Cl("caller-owned-inputs-unchanged", r.bufs_ok) \o Cl("shared-defaults-unchanged", r.defaults_ok)
      IN IF bad = << >> THEN TRUE
         ELSE PrintT(ToJson([k |-> "reject", i |-> i, id |-> r.id, clauses |-> bad, sig |-> Sig(r), want |-> << >>]))
 
